@@ -86,6 +86,10 @@ def main():
         import traceback
 
         ctx.harness_errors.append("run() raised: " + traceback.format_exc()[-1500:])
+    except BaseException as e:
+        if type(e).__name__ not in ("Inconclusive", "PathAbort"):
+            raise
+        ctx.inconc("run", f"{type(e).__name__}: {e}")
     sys.exit(core.finish(ctx))
 
 
